@@ -25,6 +25,12 @@ TOpen == /\ IsEvent("LOpen")
             /\ Expect(E.res # "ok" \/ E.ms <= 10000, "compatible open took more than 10 s")
             /\ Expect(E.res # "ErrTimeout" \/ (E.ms >= E.timeoutMs - 120 /\ E.ms <= E.timeoutMs + 10000), "timeout reported far from the requested timeout")
             /\ held' = IF E.res = "ok" THEN [held EXCEPT ![E.a] = E.mode] ELSE held
+\* an open that fails after it took the lock leaves no lock behind
+TOpenFail == /\ IsEvent("LOpenFail")
+             /\ Expect(held[E.a] = "none", "driver opened twice through one actor")
+             /\ LET want == IF Compatible(held, E.a, E.mode) THEN "fail" ELSE "ErrTimeout" IN
+                Expect(E.res = want, <<"outcome of an open that fails half-way; Lock.tla says", want, held>>)
+             /\ UNCHANGED held
 TClose == /\ IsEvent("LClose")
           /\ Expect(held[E.a] # "none" /\ E.res = "ok", "close failed")
           /\ held' = [held EXCEPT ![E.a] = "none"]
@@ -46,7 +52,7 @@ TPoke == /\ IsEvent("Poke")
          /\ Expect(E.changed = 0, "a slice returned by a read transaction is a writable view of the database")
          /\ Expect(E.fault + E.private > 0, "no slice was probed")
          /\ UNCHANGED held
-Next == TReset \/ TOpen \/ TClose \/ TWaiter \/ TROSession \/ TPoke
+Next == TReset \/ TOpen \/ TOpenFail \/ TClose \/ TWaiter \/ TROSession \/ TPoke
 Spec == Init /\ [][Next]_<<l, held>>
 Exclusion == \A a, b \in A : (a # b /\ held[a] = "rw") => held[b] = "none"
 HighWater == TLCSet(1, IF TLCGet(1) < l THEN l ELSE TLCGet(1))
